@@ -25,7 +25,7 @@ REPORT = ['modules', 'messages', 'evaluations', 'variant:indefinite', 'variant:p
           'combination_cells_covered', 'skipped_tree_does_not_match_type', 'carved_out']
 FLOORS = {'quick': {'evaluations': 20000, 'variant:indefinite': 3000, 'variant:padded': 3000, 'variant:segmented': 2000, 'variant:permuted': 300},
           'thorough': {'evaluations': 80000, 'variant:indefinite': 12000, 'variant:padded': 12000, 'variant:segmented': 8000, 'variant:permuted': 1200}}
-TIMEOUT = {'quick': 1800, 'thorough': 14000}
+TIMEOUT = {'quick': 1800, 'thorough': 5400}
 
 
 def shards(tier):
